@@ -23,5 +23,6 @@ CONSTANTS
   BugZeroCostHeld = TRUE
   SplitOnlyAtEnqueue = FALSE
   DropOnClose = FALSE
+  WithSettings = TRUE
 INVARIANTS NoEligibleQueued
 CHECK_DEADLOCK FALSE
